@@ -31,6 +31,7 @@ Verdict(c, o) ==
   ELSE IF ~o.stamps_same THEN "TimestampsChanged"
   ELSE IF ~o.xview THEN "ViewsDescribeDifferentPoses"
   ELSE IF o.second # "TrajectoryException" THEN "SecondProjectionNotRefused"
+  ELSE IF "third" \in DOMAIN o /\ o.third # "TrajectoryException" THEN "SecondProjectionNotRefused"        \* after a transformation in between
   \* a metric computed "projected to the plane" with this (already projected) object as reference: either that is refused, or the
   \* estimate it was computed on really lies in the plane - never a silently skipped projection
   ELSE IF "ape2" \in DOMAIN o /\ o.ape2 = "nonplanar" THEN "ProjectionSilentlySkipped"
